@@ -196,3 +196,25 @@ Proof.
   intros H. unfold trim in *. unfold trim_start at 1. cbn [length].
   rewrite (strip1 _ _ _ _ (ws_head_blank _)). exact H.
 Qed.
+
+Lemma ws_head_of_blank b t : is_blank b = true -> ws_head (b :: t) = 1.
+Proof. destruct b; simpl; intros H; try discriminate; reflexivity. Qed.
+
+Lemma trim_start_blanks pad y : forallb is_blank pad = true -> trim_start (pad ++ y) = trim_start y.
+Proof.
+  induction pad as [|b p IH]; intros H; [reflexivity|]. cbn [forallb] in H. apply andb_true_iff in H.
+  destruct H as [Hb Hp]. unfold trim_start at 1. cbn [app length].
+  rewrite (strip1 _ _ _ _ (ws_head_of_blank b _ Hb)). exact (IH Hp).
+Qed.
+
+(* the value of a printed metadata line after the tag and any blanks/tabs: trim gives the value *)
+Lemma trim_padded_value (crlf : bool) pad s :
+  forallb is_blank pad = true -> utf8_valid s = true -> trim s = s ->
+  trim (pad ++ s ++ (if crlf then [x0d; x0a] else [x0a])) = s.
+Proof.
+  intros Hp V T. rewrite <- (trim_printed_value crlf s V T) at 2.
+  unfold trim. rewrite (trim_start_blanks pad _ Hp).
+  change (" " :: " " :: s ++ (if crlf then ["013"; "010"] else ["010"]))
+    with ([" "; " "] ++ s ++ (if crlf then ["013"; "010"] else ["010"])).
+  rewrite (trim_start_blanks [" "; " "] _ eq_refl). reflexivity.
+Qed.
